@@ -96,7 +96,7 @@ def scenes(tier):
     out.append(("F2V", [fixed("a", 2), var("b", max_duration=2)] + W2))
     out.append(("F1oF2", [fixed("a", 1, optional=True), fixed("b", 2)] + W2))
     out.append(("sel", [fixed("a", 1), fixed("b", 2), worker("w"), worker("v"), select("s", ["w", "v"]), req("a", "s"), req("b", "w")]))
-    if tier == "thorough":
+    if tier in ("thorough", "deep"):
         out.append(("3", [fixed("a", 1), fixed("b", 1), fixed("c", 2), worker("w")] + [req(i, "w") for i in "abc"]))
         out.append(("dyn", [fixed("a", 2), fixed("b", 1), worker("w"), req("a", "w", dynamic=True), req("b", "w")]))
     return out
@@ -114,7 +114,7 @@ def resource_indicators(tier):
 def cost_fns(tier):
     fns = [("const2", const_fn(2)), ("const1", const_fn(1)), ("lin+", lin_fn(1, 1)), ("lin-", lin_fn(-1, 6)), ("lin2", lin_fn(2, 0)),
            ("quad", poly_fn([1, 0, 1]))]
-    if tier == "thorough":
+    if tier in ("thorough", "deep"):
         fns += [("const0", const_fn(0)), ("quad2", poly_fn([1, 1, 0])), ("lin3", lin_fn(3, 1))]
     return fns
 
@@ -152,7 +152,7 @@ def jobs(tier):
     # objective-created indicators
     for cls in ("ObjectiveMinimizeFlowtime", "ObjectivePriorities", "ObjectiveTasksStartEarliest", "ObjectiveTasksStartLatest", "ObjectiveMinimizeGreatestStartTime"):
         for ts in ([fixed("a", 1), fixed("b", 2, priority=2)], [fixed("a", 1, optional=True, priority=3), var("b", max_duration=2)],
-                   [fixed("a", 1), fixed("b", 1), fixed("c", 2, priority=2)] if tier == "thorough" else [fixed("a", 2, priority=0), fixed("b", 1)]):
+                   [fixed("a", 1), fixed("b", 1), fixed("c", 2, priority=2)] if tier in ("thorough", "deep") else [fixed("a", 2, priority=0), fixed("b", 1)]):
             out.append(dict(post, program=prog(4 if len(ts) < 3 else 3, ts + [new(cls, "i1")]), family=cls))
     for cls in ("ObjectiveMinimizeFlowtime", "ObjectiveTasksStartLatest", "ObjectiveMinimizeGreatestStartTime"):
         out.append(dict(post, program=prog(4, [fixed("a", 1), fixed("b", 2), new(cls, "i1", list_of_tasks=[R("b")])]), family=cls + "/list"))
@@ -224,5 +224,8 @@ def witness(entry):
 
 
 def main(tier):
-    return common.run_space_check("C08", tier, jobs(tier), RULE, ASSUME, budget_s=110 if tier == "quick" else 1500,
+    js = jobs(common.level("C08", tier))
+    if common.level("C08", tier) == "deep":
+        js = common.widen(js, by=(1, 2, 5))
+    return common.run_space_check("C08", tier, js, RULE, ASSUME, budget_s=110 if tier == "quick" else 1500,
                                   confirm=confirm, witness=witness)
